@@ -64,6 +64,9 @@ def _protect_constants(expr: str) -> str:
     return _const_tokens.sub(lambda m: {"pi": "PR_CONST_PI", "E": "PR_CONST_E", "I": "PR_CONST_I"}[m.group(1)], expr)
 
 
+# <integer>/<integer> that is not part of a longer number, identifier or product (e.g. 2*x/3 is a real division anyway)
+_int_ratio = re.compile(r"(?<![\w.)\]])(\d+)/(\d+)(?![\w.(\[])")
+
 # a real literal without kind: digits with a decimal point, optionally followed by an e-exponent
 _real_literal = re.compile(r"(?<![\w.])(\d+\.\d*|\.\d+|\d+(?=[eE][-+]?\d))(?:[eE]([-+]?\d+))?(?![\w.])")
 
@@ -380,6 +383,10 @@ class FortranBackend(BaseBackend):
             expr = replace(expr, old_expr, new_expr)
 
         expr = _protect_constants(expr)
+
+        # a ratio of two integer literals (sympy writes the exponent of x**(1/3) or a term 1/4 that way) is an integer
+        # division in Fortran (1/3 = 0): write the numerator as a real
+        expr = _int_ratio.sub(lambda m: f"{m.group(1)}.0/{m.group(2)}", expr)
 
         # real literals are of default (single precision) kind in Fortran unless they carry a kind/exponent letter:
         # `0.1` would enter a double precision equation as 0.100000001490116 (single precision models keep literals of
